@@ -11,9 +11,16 @@ def parseCfg (cfg peers paths blocks : String) : Option Cfg :=
       match b.splitOn ":" with
       | [k, ls] => do pure (← k.toNat?, ← if ls == "" then some [] else (ls.splitOn ".").mapM String.toNat?)
       | _ => none
+    -- `k:l.l` a block BlockGet returns, `k!l.l` a block that exists but cannot be fetched
+    let parseLost (b : String) : Option (Nat × List Nat) :=
+      match b.splitOn "!" with
+      | [k, ls] => do pure (← k.toNat?, ← if ls == "" then some [] else (ls.splitOn ".").mapM String.toNat?)
+      | _ => none
+    let toks := if blocks == "-" then [] else blocks.splitOn ";"
     pure { follower := f == "f1", defMin := dmin, defMax := dmax, desc := s == "s1",
            peers := ← parsePeers peers, paths := ← listOf parseKV paths,
-           blocks := ← if blocks == "-" then some [] else (blocks.splitOn ";").mapM parseBlock }
+           blocks := ← (toks.filter (fun t => !t.contains '!')).mapM parseBlock,
+           lost := ← (toks.filter (fun t => t.contains '!')).mapM parseLost }
   | _ => none
 
 def parseOp : List String → Option Op
